@@ -64,142 +64,150 @@ def run(ctx):
     ctx.add_sites(res, ctx.sites(rules=("C-SIG", "K-ARG", "K-SIZE", "K-KEY-LOCAL", "K-MEM"), files=files))
 
     # ---- bipartite projection
-    v = ctx.view("projections.bipartite_projection")
-    f = v.fi.short
-    check_inverse_tables(res, v, "id_to_obj", "obj_to_id")
-    for n in walk_no_nested(v.fi.node):
-        if isinstance(n, ast.Call) and isinstance(n.func, ast.Attribute) and norm(n.func.value) == "g" and n.func.attr in ("add_node", "add_edge"):
-            for a in n.args:
-                ok = isinstance(a, ast.Subscript) and norm(a.value) == "obj_to_id"
-                res.check(ok, "K-VID", f, norm(n), "from-id-table", "a graph vertex / edge is created from a raw object instead of its id in obj_to_id (the id table would not map it back)", loc(v.fi, n))
-    rets = [n for n in walk_no_nested(v.fi.node) if isinstance(n, ast.Return)]
-    res.check(all(isinstance(r.value, ast.Tuple) and len(r.value.elts) == 2 and norm(r.value.elts[1]) == "id_to_obj" for r in rets), "K-VID", f, norm(rets[0]), "returns-id-table", "the projection does not return the id->object table", loc(v.fi, rets[0]))
-    # membership edges: for node in edge: g.add_edge(obj_to_id[edge], obj_to_id[node])
-    me = [n for n in walk_no_nested(v.fi.node) if isinstance(n, ast.Call) and isinstance(n.func, ast.Attribute) and n.func.attr == "add_edge" and norm(n.func.value) == "g"]
-    for n in me:
-        lp = v.enclosing(n, (ast.For,))
-        okl = lp is not None and isinstance(lp.target, ast.Name) and any(isinstance(a, ast.Subscript) and norm(a.slice) == lp.target.id for a in n.args) and any(isinstance(a, ast.Subscript) and norm(a.slice) == norm(lp.iter) for a in n.args)
-        res.check(okl, "K-VID", f, norm(n), "membership", "bipartite links do not join a hyperedge with each of ITS nodes", loc(v.fi, n))
-
-    # ---- line graphs
-    for d, tabs in (("projections.line_graph", ("edge_to_id", "id_to_edge")), ("projections.directed_line_graph", ("edge_to_id", "id_to_edge"))):
-        v = ctx.view(d)
+    with res.guard("bipartite projection"):
+        v = ctx.view("projections.bipartite_projection")
         f = v.fi.short
-        check_inverse_tables(res, v, *tabs)
-        F.check_use(ctx, res, d, ("s", "weighted", "distance"))
-        # M-THRESH
-        cmps = [n for n in walk_no_nested(v.fi.node) if isinstance(n, ast.Compare) and len(n.ops) == 1 and {norm(n.left), norm(n.comparators[0])} >= {"s"} and not any(_is_len(x) for x in ast.walk(n))]
-        if not cmps:
-            raise AnalysisError(f"{f}: threshold comparison not found")
-        for c in cmps:
-            s_right = norm(c.comparators[0]) == "s"
-            op = type(c.ops[0])
-            ok = (s_right and op is ast.GtE) or (not s_right and op is ast.LtE)
-            res.check(ok, "M-THRESH", f, norm(c), "w>=s", "the similarity threshold is not `w >= s` (links with similarity exactly s are lost, or weaker links kept)", loc(v.fi, c))
-            other = c.left if s_right else c.comparators[0]
-            src = None
-            if isinstance(other, ast.Name):
-                defs = [m for m in walk_no_nested(v.fi.node) if isinstance(m, ast.Assign) and isinstance(m.targets[0], ast.Name) and m.targets[0].id == other.id]
-                src = defs[-1].value if defs else None
-            res.check(src is not None and isinstance(src, ast.Call) and norm(src.func) == "_distance", "M-THRESH", f, norm(c), "w=_distance", "the thresholded quantity is not the similarity of the two hyperedges", loc(v.fi, c))
-        # graph edges use ids of the id table; vertices are 0..len(h)-1 and the counter enumerates h.get_edges()
+        with res.guard("check_inverse_tablesres, v, id_to_obj, obj_to_id"):
+            check_inverse_tables(res, v, "id_to_obj", "obj_to_id")
         for n in walk_no_nested(v.fi.node):
-            if isinstance(n, ast.Call) and isinstance(n.func, ast.Attribute) and norm(n.func.value) == "g" and n.func.attr == "add_edge":
-                ok = len(n.args) == 2 and all(isinstance(a, ast.Subscript) and norm(a.value) == "edge_to_id" for a in n.args)
-                res.check(ok, "K-VID", f, norm(n), "from-id-table", "a line-graph link is created from raw hyperedges instead of their ids", loc(v.fi, n))
-            if isinstance(n, ast.Call) and isinstance(n.func, ast.Attribute) and norm(n.func.value) == "g" and n.func.attr == "add_nodes_from":
-                txt = norm(n.args[0]) if n.args else ""
-                res.check("range(len(h))" in txt or "range(len(edges))" in txt or "range(cont)" in txt, "K-VID", f, norm(n), "one-vertex-per-edge", "the line graph does not get exactly one vertex per hyperedge id", loc(v.fi, n))
+            if isinstance(n, ast.Call) and isinstance(n.func, ast.Attribute) and norm(n.func.value) == "g" and n.func.attr in ("add_node", "add_edge"):
+                for a in n.args:
+                    ok = isinstance(a, ast.Subscript) and norm(a.value) == "obj_to_id"
+                    res.check(ok, "K-VID", f, norm(n), "from-id-table", "a graph vertex / edge is created from a raw object instead of its id in obj_to_id (the id table would not map it back)", loc(v.fi, n))
         rets = [n for n in walk_no_nested(v.fi.node) if isinstance(n, ast.Return)]
-        res.check(all(isinstance(r.value, ast.Tuple) and norm(r.value.elts[1]) == "id_to_edge" for r in rets), "K-VID", f, norm(rets[0]), "returns-id-table", "the line graph does not return the id->hyperedge table", loc(v.fi, rets[0]))
-    _loop_pairs(res, ctx.view("projections.line_graph"))
-    _loop_pairs(res, ctx.view("projections.clique_projection"))
-    # the pair loops of the line graph range over the complete incident lists
-    v = ctx.view("projections.line_graph")
-    adjs = [a for a in dict_stores(v).get("adj", [])]
-    if not adjs:
-        raise AnalysisError("line_graph: adjacency construction not recognised")
-    for asg, k, val in adjs:
-        # (a filtering comprehension over the incident list is accepted: whether the filter is right is K-SIZE's business)
-        calls = [x for x in ast.walk(val) if isinstance(x, ast.Call) and isinstance(x.func, ast.Attribute) and x.func.attr == "get_incident_edges"]
-        ok = len(calls) == 1 and len(calls[0].args) == 1 and not calls[0].keywords and norm(calls[0].args[0]) == norm(k)
-        res.check(ok, "L-PAIRS", v.fi.short, norm(asg), "incident-list-of-node", "the per-node hyperedge lists that drive the pair enumeration are not derived from the incident list of that node", loc(v.fi, asg))
-
+        res.check(all(isinstance(r.value, ast.Tuple) and len(r.value.elts) == 2 and norm(r.value.elts[1]) == "id_to_obj" for r in rets), "K-VID", f, norm(rets[0]), "returns-id-table", "the projection does not return the id->object table", loc(v.fi, rets[0]))
+        # membership edges: for node in edge: g.add_edge(obj_to_id[edge], obj_to_id[node])
+        me = [n for n in walk_no_nested(v.fi.node) if isinstance(n, ast.Call) and isinstance(n.func, ast.Attribute) and n.func.attr == "add_edge" and norm(n.func.value) == "g"]
+        for n in me:
+            lp = v.enclosing(n, (ast.For,))
+            okl = lp is not None and isinstance(lp.target, ast.Name) and any(isinstance(a, ast.Subscript) and norm(a.slice) == lp.target.id for a in n.args) and any(isinstance(a, ast.Subscript) and norm(a.slice) == norm(lp.iter) for a in n.args)
+            res.check(okl, "K-VID", f, norm(n), "membership", "bipartite links do not join a hyperedge with each of ITS nodes", loc(v.fi, n))
+    # ---- line graphs
+    with res.guard("line graphs"):
+        for d, tabs in (("projections.line_graph", ("edge_to_id", "id_to_edge")), ("projections.directed_line_graph", ("edge_to_id", "id_to_edge"))):
+            v = ctx.view(d)
+            f = v.fi.short
+            with res.guard("check_inverse_tablesres, v, tabs"):
+                check_inverse_tables(res, v, *tabs)
+            with res.guard("F.check_usectx, res, d, s, weighted, distance"):
+                F.check_use(ctx, res, d, ("s", "weighted", "distance"))
+            # M-THRESH
+            cmps = [n for n in walk_no_nested(v.fi.node) if isinstance(n, ast.Compare) and len(n.ops) == 1 and {norm(n.left), norm(n.comparators[0])} >= {"s"} and not any(_is_len(x) for x in ast.walk(n))]
+            if not cmps:
+                raise AnalysisError(f"{f}: threshold comparison not found")
+            for c in cmps:
+                s_right = norm(c.comparators[0]) == "s"
+                op = type(c.ops[0])
+                ok = (s_right and op is ast.GtE) or (not s_right and op is ast.LtE)
+                res.check(ok, "M-THRESH", f, norm(c), "w>=s", "the similarity threshold is not `w >= s` (links with similarity exactly s are lost, or weaker links kept)", loc(v.fi, c))
+                other = c.left if s_right else c.comparators[0]
+                src = None
+                if isinstance(other, ast.Name):
+                    defs = [m for m in walk_no_nested(v.fi.node) if isinstance(m, ast.Assign) and isinstance(m.targets[0], ast.Name) and m.targets[0].id == other.id]
+                    src = defs[-1].value if defs else None
+                res.check(src is not None and isinstance(src, ast.Call) and norm(src.func) == "_distance", "M-THRESH", f, norm(c), "w=_distance", "the thresholded quantity is not the similarity of the two hyperedges", loc(v.fi, c))
+            # graph edges use ids of the id table; vertices are 0..len(h)-1 and the counter enumerates h.get_edges()
+            for n in walk_no_nested(v.fi.node):
+                if isinstance(n, ast.Call) and isinstance(n.func, ast.Attribute) and norm(n.func.value) == "g" and n.func.attr == "add_edge":
+                    ok = len(n.args) == 2 and all(isinstance(a, ast.Subscript) and norm(a.value) == "edge_to_id" for a in n.args)
+                    res.check(ok, "K-VID", f, norm(n), "from-id-table", "a line-graph link is created from raw hyperedges instead of their ids", loc(v.fi, n))
+                if isinstance(n, ast.Call) and isinstance(n.func, ast.Attribute) and norm(n.func.value) == "g" and n.func.attr == "add_nodes_from":
+                    txt = norm(n.args[0]) if n.args else ""
+                    res.check("range(len(h))" in txt or "range(len(edges))" in txt or "range(cont)" in txt, "K-VID", f, norm(n), "one-vertex-per-edge", "the line graph does not get exactly one vertex per hyperedge id", loc(v.fi, n))
+            rets = [n for n in walk_no_nested(v.fi.node) if isinstance(n, ast.Return)]
+            res.check(all(isinstance(r.value, ast.Tuple) and norm(r.value.elts[1]) == "id_to_edge" for r in rets), "K-VID", f, norm(rets[0]), "returns-id-table", "the line graph does not return the id->hyperedge table", loc(v.fi, rets[0]))
+        with res.guard("_loop_pairsres, ctx.viewprojections.line_graph"):
+            _loop_pairs(res, ctx.view("projections.line_graph"))
+        with res.guard("_loop_pairsres, ctx.viewprojections.clique_projection"):
+            _loop_pairs(res, ctx.view("projections.clique_projection"))
+        # the pair loops of the line graph range over the complete incident lists
+        v = ctx.view("projections.line_graph")
+        adjs = [a for a in dict_stores(v).get("adj", [])]
+        if not adjs:
+            raise AnalysisError("line_graph: adjacency construction not recognised")
+        for asg, k, val in adjs:
+            # (a filtering comprehension over the incident list is accepted: whether the filter is right is K-SIZE's business)
+            calls = [x for x in ast.walk(val) if isinstance(x, ast.Call) and isinstance(x.func, ast.Attribute) and x.func.attr == "get_incident_edges"]
+            ok = len(calls) == 1 and len(calls[0].args) == 1 and not calls[0].keywords and norm(calls[0].args[0]) == norm(k)
+            res.check(ok, "L-PAIRS", v.fi.short, norm(asg), "incident-list-of-node", "the per-node hyperedge lists that drive the pair enumeration are not derived from the incident list of that node", loc(v.fi, asg))
     # ---- K-ROLE in the directed line graph
-    v = ctx.view("projections.directed_line_graph")
-    f = v.fi.short
-    dist = [n for n in walk_no_nested(v.fi.node) if isinstance(n, ast.Call) and norm(n.func) == "_distance" and len(n.args) == 2]
-    links = [n for n in walk_no_nested(v.fi.node) if isinstance(n, ast.Call) and isinstance(n.func, ast.Attribute) and n.func.attr == "add_edge" and norm(n.func.value) == "g" and len(n.args) >= 2]
-    if not dist or not links:
-        raise AnalysisError(f"{f}: distance / link idiom not recognised")
+    with res.guard("K-ROLE in the directed line graph"):
+        v = ctx.view("projections.directed_line_graph")
+        f = v.fi.short
+        dist = [n for n in walk_no_nested(v.fi.node) if isinstance(n, ast.Call) and norm(n.func) == "_distance" and len(n.args) == 2]
+        links = [n for n in walk_no_nested(v.fi.node) if isinstance(n, ast.Call) and isinstance(n.func, ast.Attribute) and n.func.attr == "add_edge" and norm(n.func.value) == "g" and len(n.args) >= 2]
+        if not dist or not links:
+            raise AnalysisError(f"{f}: distance / link idiom not recognised")
 
-    def comp_of(arg):
-        """(edge variable, role) feeding a distance argument"""
-        e = arg
-        if isinstance(e, ast.Name):
-            defs = [m for m in walk_no_nested(v.fi.node) if isinstance(m, ast.Assign) and isinstance(m.targets[0], ast.Name) and m.targets[0].id == e.id]
-            e = defs[-1].value if defs else e
-        for x in ast.walk(e):
-            if isinstance(x, ast.Subscript) and isinstance(x.value, ast.Name) and isinstance(x.slice, ast.Constant):
-                k = elem_of(v.kind(x))
-                role = k.role if isinstance(k, Atom) else None
-                return x.value.id, role or {0: "SRC", 1: "TGT"}.get(x.slice.value)
-        return None, None
+        def comp_of(arg):
+            """(edge variable, role) feeding a distance argument"""
+            e = arg
+            if isinstance(e, ast.Name):
+                defs = [m for m in walk_no_nested(v.fi.node) if isinstance(m, ast.Assign) and isinstance(m.targets[0], ast.Name) and m.targets[0].id == e.id]
+                e = defs[-1].value if defs else e
+            for x in ast.walk(e):
+                if isinstance(x, ast.Subscript) and isinstance(x.value, ast.Name) and isinstance(x.slice, ast.Constant):
+                    k = elem_of(v.kind(x))
+                    role = k.role if isinstance(k, Atom) else None
+                    return x.value.id, role or {0: "SRC", 1: "TGT"}.get(x.slice.value)
+            return None, None
 
-    for dcall in dist:
-        a, b = comp_of(dcall.args[0]), comp_of(dcall.args[1])
-        roles = {a[0]: a[1], b[0]: b[1]}
-        for ln in links:
-            tail, head = norm(ln.args[0].slice) if isinstance(ln.args[0], ast.Subscript) else None, norm(ln.args[1].slice) if isinstance(ln.args[1], ast.Subscript) else None
-            ok = roles.get(tail) == "TGT" and roles.get(head) == "SRC"
-            res.check(ok, "K-ROLE", f, norm(ln), "tail=target-side", f"arc {tail}->{head} is drawn although the distance compares the {roles.get(tail)} set of {tail} with the {roles.get(head)} set of {head}: direction reversed", loc(v.fi, ln))
-
+        for dcall in dist:
+            a, b = comp_of(dcall.args[0]), comp_of(dcall.args[1])
+            roles = {a[0]: a[1], b[0]: b[1]}
+            for ln in links:
+                tail, head = norm(ln.args[0].slice) if isinstance(ln.args[0], ast.Subscript) else None, norm(ln.args[1].slice) if isinstance(ln.args[1], ast.Subscript) else None
+                ok = roles.get(tail) == "TGT" and roles.get(head) == "SRC"
+                res.check(ok, "K-ROLE", f, norm(ln), "tail=target-side", f"arc {tail}->{head} is drawn although the distance compares the {roles.get(tail)} set of {tail} with the {roles.get(head)} set of {head}: direction reversed", loc(v.fi, ln))
     # ---- clique projection keeps isolated nodes when asked
-    v = ctx.view("projections.clique_projection")
-    F.check_use(ctx, res, "projections.clique_projection", ("keep_isolated",))
-    ifs = [n for n in walk_no_nested(v.fi.node) if isinstance(n, ast.If) and norm(n.test) == "keep_isolated"]
-    okk = any(isinstance(x, ast.Call) and isinstance(x.func, ast.Attribute) and x.func.attr in ("add_node", "add_nodes_from") for i in ifs for x in ast.walk(i))
-    res.check(okk, "F-USE", v.fi.short, "if keep_isolated: g.add_node(node)", "keep_isolated", "keep_isolated does not add every node of the hypergraph to the projection", loc(v.fi, v.fi.node))
-
+    with res.guard("clique projection keeps isolated nodes when asked"):
+        v = ctx.view("projections.clique_projection")
+        with res.guard("F.check_usectx, res, projections.clique_projection, keep_isolated,"):
+            F.check_use(ctx, res, "projections.clique_projection", ("keep_isolated",))
+        ifs = [n for n in walk_no_nested(v.fi.node) if isinstance(n, ast.If) and norm(n.test) == "keep_isolated"]
+        okk = any(isinstance(x, ast.Call) and isinstance(x.func, ast.Attribute) and x.func.attr in ("add_node", "add_nodes_from") for i in ifs for x in ast.walk(i))
+        res.check(okk, "F-USE", v.fi.short, "if keep_isolated: g.add_node(node)", "keep_isolated", "keep_isolated does not add every node of the hypergraph to the projection", loc(v.fi, v.fi.node))
     # ---- simplicial complex
-    v = ctx.view("simplicial_complex.simplicial_complex")
-    f = v.fi.short
-    adds = [n for n in walk_no_nested(v.fi.node) if isinstance(n, ast.Call) and isinstance(n.func, ast.Attribute) and n.func.attr == "add" and n.args]
-    if not adds:
-        raise AnalysisError(f"{f}: subset insertion idiom not recognised")
-    for a in adds:
-        k = v.kind(a.args[0])
-        res.add("S-CANON", f, norm(a), "canonical", "ok" if isinstance(k, Seq) and k.canon else ("unknown" if isinstance(k, _Top) else "violation"), "" if isinstance(k, Seq) and k.canon else f"a simplex of kind {k!r} is inserted without canonicalisation: the same subset reached from two hyperedges becomes two hyperedges", loc(v.fi, a))
-    lp = [n for n in walk_no_nested(v.fi.node) if isinstance(n, ast.For) and isinstance(n.iter, ast.Call) and isinstance(n.iter.func, ast.Attribute) and n.iter.func.attr == "get_edges"]
-    res.check(bool(lp), "S-CANON", f, "for edge in h.get_edges()", "all-edges", "the closure does not range over every hyperedge", loc(v.fi, v.fi.node))
-    gs = ctx.view("simplicial_complex.get_all_subsets")
-    txt = norm(gs.fi.node)
-    rng = [n for n in ast.walk(gs.fi.node) if isinstance(n, ast.Call) and isinstance(n.func, ast.Name) and n.func.id == "range"]
-    ok = bool(rng) and any(len(r.args) == 2 and isinstance(r.args[0], ast.Constant) and r.args[0].value in (0, 1) and norm(r.args[1]) == "len(s) + 1" for r in rng) and "combinations(s, x)" in txt
-    res.check(ok, "S-CANON", gs.fi.short, norm(rng[0]) if rng else "range(0, len(s) + 1)", "all-sizes", "subset sizes do not range over 1..len(s): the hyperedge itself or its smaller faces are missing from the closure", loc(gs.fi, gs.fi.node))
+    with res.guard("simplicial complex"):
+        v = ctx.view("simplicial_complex.simplicial_complex")
+        f = v.fi.short
+        adds = [n for n in walk_no_nested(v.fi.node) if isinstance(n, ast.Call) and isinstance(n.func, ast.Attribute) and n.func.attr == "add" and n.args]
+        if not adds:
+            raise AnalysisError(f"{f}: subset insertion idiom not recognised")
+        for a in adds:
+            k = v.kind(a.args[0])
+            res.add("S-CANON", f, norm(a), "canonical", "ok" if isinstance(k, Seq) and k.canon else ("unknown" if isinstance(k, _Top) else "violation"), "" if isinstance(k, Seq) and k.canon else f"a simplex of kind {k!r} is inserted without canonicalisation: the same subset reached from two hyperedges becomes two hyperedges", loc(v.fi, a))
+        lp = [n for n in walk_no_nested(v.fi.node) if isinstance(n, ast.For) and isinstance(n.iter, ast.Call) and isinstance(n.iter.func, ast.Attribute) and n.iter.func.attr == "get_edges"]
+        res.check(bool(lp), "S-CANON", f, "for edge in h.get_edges()", "all-edges", "the closure does not range over every hyperedge", loc(v.fi, v.fi.node))
+        gs = ctx.view("simplicial_complex.get_all_subsets")
+        txt = norm(gs.fi.node)
+        rng = [n for n in ast.walk(gs.fi.node) if isinstance(n, ast.Call) and isinstance(n.func, ast.Name) and n.func.id == "range"]
+        ok = bool(rng) and any(len(r.args) == 2 and isinstance(r.args[0], ast.Constant) and r.args[0].value in (0, 1) and norm(r.args[1]) == "len(s) + 1" for r in rng) and "combinations(s, x)" in txt
+        res.check(ok, "S-CANON", gs.fi.short, norm(rng[0]) if rng else "range(0, len(s) + 1)", "all-sizes", "subset sizes do not range over 1..len(s): the hyperedge itself or its smaller faces are missing from the closure", loc(gs.fi, gs.fi.node))
     # ---- similarity functions: a ratio of two integer counts, rounded once
-    res.rules["D-RATIO"] = "intersection = |a & b|; jaccard_similarity = |a & b| / |a | b| as ONE division of integer counts (no float subtraction before the threshold test)"
-    v = ctx.view("edge_similarity.jaccard_similarity")
-    rets = [n for n in walk_no_nested(v.fi.node) if isinstance(n, ast.Return)]
+    with res.guard("similarity functions: a ratio of two integer counts, rounded once"):
+        res.rules["D-RATIO"] = "intersection = |a & b|; jaccard_similarity = |a & b| / |a | b| as ONE division of integer counts (no float subtraction before the threshold test)"
+        v = ctx.view("edge_similarity.jaccard_similarity")
+        rets = [n for n in walk_no_nested(v.fi.node) if isinstance(n, ast.Return)]
 
-    def int_count(e):
-        if isinstance(e, ast.Call) and isinstance(e.func, ast.Name) and e.func.id == "len":
-            return True
-        if isinstance(e, ast.BinOp) and isinstance(e.op, (ast.Add, ast.Sub, ast.Mult)):
-            return int_count(e.left) and int_count(e.right)
-        if isinstance(e, ast.Name):
-            defs = [m.value for m in walk_no_nested(v.fi.node) if isinstance(m, ast.Assign) and isinstance(m.targets[0], ast.Name) and m.targets[0].id == e.id]
-            return bool(defs) and all(int_count(d) for d in defs)
-        return isinstance(e, ast.Constant) and isinstance(e.value, int)
+        def int_count(e):
+            if isinstance(e, ast.Call) and isinstance(e.func, ast.Name) and e.func.id == "len":
+                return True
+            if isinstance(e, ast.BinOp) and isinstance(e.op, (ast.Add, ast.Sub, ast.Mult)):
+                return int_count(e.left) and int_count(e.right)
+            if isinstance(e, ast.Name):
+                defs = [m.value for m in walk_no_nested(v.fi.node) if isinstance(m, ast.Assign) and isinstance(m.targets[0], ast.Name) and m.targets[0].id == e.id]
+                return bool(defs) and all(int_count(d) for d in defs)
+            return isinstance(e, ast.Constant) and isinstance(e.value, int)
 
-    for r in rets:
-        ok = isinstance(r.value, ast.BinOp) and isinstance(r.value.op, ast.Div) and int_count(r.value.left) and int_count(r.value.right)
-        res.check(ok, "D-RATIO", v.fi.short, norm(r), "single-division", "the similarity is not computed as one division of integer counts: an extra floating-point step (e.g. 1 - distance) makes `w >= s` fail when the similarity equals s exactly", loc(v.fi, r))
-        if ok:
-            num, den = norm(r.value.left), norm(r.value.right)
-            res.check(("intersection" in num or "&" in num) and ("union" in den or "|" in den), "D-RATIO", v.fi.short, norm(r), "inter/union", "the similarity is not |a & b| / |a | b|", loc(v.fi, r))
-    v = ctx.view("edge_similarity.intersection")
-    rets = [n for n in walk_no_nested(v.fi.node) if isinstance(n, ast.Return)]
-    res.check(all(norm(r.value) in ("len(a.intersection(b))", "len(a & b)", "len(set(a) & set(b))", "len(set(a).intersection(b))", "len(set(a).intersection(set(b)))") for r in rets), "D-RATIO", v.fi.short, norm(rets[0]), "intersection-size", "intersection() does not return the number of common nodes", loc(v.fi, rets[0]))
+        for r in rets:
+            ok = isinstance(r.value, ast.BinOp) and isinstance(r.value.op, ast.Div) and int_count(r.value.left) and int_count(r.value.right)
+            res.check(ok, "D-RATIO", v.fi.short, norm(r), "single-division", "the similarity is not computed as one division of integer counts: an extra floating-point step (e.g. 1 - distance) makes `w >= s` fail when the similarity equals s exactly", loc(v.fi, r))
+            if ok:
+                num, den = norm(r.value.left), norm(r.value.right)
+                res.check(("intersection" in num or "&" in num) and ("union" in den or "|" in den), "D-RATIO", v.fi.short, norm(r), "inter/union", "the similarity is not |a & b| / |a | b|", loc(v.fi, r))
+        v = ctx.view("edge_similarity.intersection")
+        rets = [n for n in walk_no_nested(v.fi.node) if isinstance(n, ast.Return)]
+        res.check(all(norm(r.value) in ("len(a.intersection(b))", "len(a & b)", "len(set(a) & set(b))", "len(set(a).intersection(b))", "len(set(a).intersection(set(b)))") for r in rets), "D-RATIO", v.fi.short, norm(rets[0]), "intersection-size", "intersection() does not return the number of common nodes", loc(v.fi, rets[0]))
     res.assumptions += ["itertools.combinations enumerates every subset of the given size (library)", "for the Jaccard distance `s` is a ratio; the SIZE unit of `s` is only used to reject comparisons of `s` with an ORDER-valued expression"]
     return res
